@@ -8,7 +8,7 @@ From Aelys Require Import Extracted.ValueConsts Extracted.Opcodes Model.Value Mo
 From Aelys Require Import Base.Tactics Model.Lang Model.Eval Extracted.OptConsts Model.Opt.Fold
   Model.PureEval Proofs.EvalProofs Proofs.FoldProofs Proofs.PureProofs Proofs.EvalMono Proofs.FoldEvalProofs
   Proofs.ValueMap Proofs.FoldSim Proofs.FoldSimExpr Model.Opt.Dce Proofs.DceEval Proofs.DceSim Proofs.DceSim2
-  Model.Opt.Unused Proofs.UnusedProofs.
+  Model.Opt.Unused Proofs.UnusedProofs Model.Opt.GlobalProp Proofs.GlobalPropProofs.
 Local Open Scope Z_scope.
 
 (* whenever the folder replaces `a op b` by a literal, that literal is exactly the value the
@@ -292,6 +292,94 @@ Example C01_unused_nonvacuous :
   /\ oc_class (run_program 400 p) = OcErr EDivZero
   /\ oc_class (run_program 400 (unused_program p)) = OcOk
   /\ oc_output (run_program 400 (unused_program p)) = sb [98; 10; 53; 10]%nat.
+Proof. vm_compute. repeat split; reflexivity. Qed.
+
+(* ------------------------------------------------------------------ global constant propagation *)
+(* Model/Opt/GlobalProp.v transcribes opt/src/passes/global_const_prop and the binder census of
+   binders.rs; on every run the tie checks that the model produces exactly the real pass's output,
+   for whole programs and for session units.
+   (1) Every program: every entry of the constant table is a closed constant expression, names
+   are unique, and each entry is an immutable top-level `let` of the program whose name is bound
+   exactly once in the whole program (no parameter, local, loop variable, lambda parameter,
+   function or second top-level `let` of that name exists - the shadowing defect class). *)
+Theorem C01_gprop_table_entries : forall p : program,
+  NoDup (map fst (collect p)) /\
+  forall x c pos, In (x, (c, pos)) (collect p) ->
+    closed c = true /\ bound_once (binders_block p) x = true /\
+    exists e, nth_error p pos = Some (SLet x false e).
+Proof. exact collect_ok. Qed.
+
+(* (2) the table is sound: in any environment in which the constants defined by EARLIER
+   statements hold the values of their entries, the resolved expression stored for a `let`
+   evaluates exactly like the `let`'s own initializer; and a closed entry means the same in every
+   environment *)
+Theorem C01_gprop_table_sound : forall (t : tbl) (idx : nat) (rho : venv) (e : expr),
+  agrees t idx rho -> is_const t idx e = true -> peval rho (resolve t e) = peval rho e.
+Proof. exact resolve_sound. Qed.
+Theorem C01_gprop_closed_entry_env_independent : forall e, closed e = true ->
+  forall rho rho', peval rho e = peval rho' e.
+Proof. exact closed_peval_indep. Qed.
+
+(* (3) a use is replaced only under the ordering rule: never inside a function or lambda body of a
+   session unit; otherwise only if the constant's `let` is an earlier top-level statement than the
+   one being rewritten, or the use sits in a function body and the `let` is among the leading
+   quiet declarations *)
+Theorem C01_gprop_substitution_rule : forall open fe t c x k,
+  may_subst open fe t c x = Some k ->
+  (open = true -> deferred c = false) /\
+  exists pos, tlookup x t = Some (k, pos) /\
+              ((pos < cursor c)%nat \/ (in_fn c = true /\ (pos < fe)%nat)).
+Proof. exact may_subst_rule. Qed.
+
+(* ... and on the pure fragment the rewrite preserves meaning wherever each variable the rule
+   lets through holds the value of the expression that replaces it *)
+Theorem C01_gprop_expr_preserves_pure : forall open fe t c rho e,
+  pure e = true ->
+  (forall x k, may_subst open fe t c x = Some k -> exists v, peval rho k = ROk v /\ rho x = Some v) ->
+  peval rho (gp_expr open fe t c e) = peval rho e.
+Proof. exact gp_expr_preserves_pure. Qed.
+
+(* (4) the statements in front of `first_effect` are function / struct declarations, imports, and
+   lets whose initializer is pure and passes the side-effect gate: nothing declared in the
+   program can run, and no global can be read by user code, before the first statement after them *)
+Theorem C01_gprop_leading_declarations_are_quiet : forall (p : program) k s,
+  (k < first_effect p)%nat -> nth_error p k = Some s ->
+  match s with
+  | SLet _ _ e => pure e = true /\ hse e = false
+  | SFun _ _ _ _ | SOther _ => True
+  | _ => False
+  end.
+Proof. exact leading_declarations_are_quiet. Qed.
+
+(* PARTIAL: that the ordering rule of (3) makes the hypothesis of the last theorem true at every
+   replaced use in every run (the environment agrees with the table there) is NOT proved - it is a
+   whole-program argument about which statements can have executed; the per-program translation
+   validation covers it.  Non-vacuity: a chain, a name bound twice (no constant), a use before
+   its `let` at top level (kept), a function among the leading declarations (rewritten), a
+   function after the first effect reading a later constant (kept), a lambda, a session unit. *)
+Example C01_gprop_nonvacuous :
+  let p := [SLet "A" false (EInt 2);
+            SFun "f" [] [SRet (Some (EBin BAdd (EVar "A") (EVar "C")))] [];
+            SLet "B" false (EBin BMul (EVar "A") (EInt 3));
+            SLet "n" false (EInt 1);
+            SExpr (ECall (EVar "println") [EVar "C"; EVar "B"]);
+            SFun "g" [("n"%string, false)] [SRet (Some (EBin BAdd (EVar "B") (EBin BAdd (EVar "C") (EVar "n"))))] [];
+            SLet "C" false (EBin BAdd (EVar "B") (EInt 1));
+            SLet "h" false (ELam [] [SRet (Some (EVar "C"))])] in
+  map fst (collect p) = ["A"; "B"; "C"]%string
+  /\ first_effect p = 4%nat
+  /\ gprop_program false p =
+           [SLet "A" false (EInt 2);
+            SFun "f" [] [SRet (Some (EBin BAdd (EInt 2) (EVar "C")))] [];
+            SLet "B" false (EBin BMul (EInt 2) (EInt 3));
+            SLet "n" false (EInt 1);
+            SExpr (ECall (EVar "println") [EVar "C"; EBin BMul (EInt 2) (EInt 3)]);
+            SFun "g" [("n"%string, false)] [SRet (Some (EBin BAdd (EBin BMul (EInt 2) (EInt 3)) (EBin BAdd (EVar "C") (EVar "n"))))] [];
+            SLet "C" false (EBin BAdd (EBin BMul (EInt 2) (EInt 3)) (EInt 1));
+            SLet "h" false (ELam [] [SRet (Some (EBin BAdd (EBin BMul (EInt 2) (EInt 3)) (EInt 1)))])]
+  /\ nth_error (gprop_program true p) 1 = nth_error p 1
+  /\ nth_error (gprop_program true p) 7 = nth_error p 7
+  /\ nth_error (gprop_program true p) 4 = nth_error (gprop_program false p) 4.
 Proof. vm_compute. repeat split; reflexivity. Qed.
 
 (* constant propagation kernel: replacing variables by the literals they are bound to is
